@@ -98,6 +98,129 @@ def resolve_local(fnode: ast.AST, e: ast.AST, depth: int = 4) -> ast.AST:
     return e
 
 
+def expand_locals(fnode: ast.AST, e: ast.AST, depth: int = 4, skip: Iterable[str] = ()) -> ast.AST:
+    """copy of expression `e` in which every local name that has exactly one binding in the function (a plain `name = value`) is replaced
+    by that value, recursively: the expression in terms of parameters, fields and multiply-assigned names.  Used to classify *what a value
+    is computed from*; names bound by comprehensions / lambdas inside `e`, loop targets and parameters are left alone."""
+    import copy as _copy
+    params = set()
+    if isinstance(fnode, (ast.FunctionDef, ast.AsyncFunctionDef, ast.Lambda)):
+        a = fnode.args
+        params = {x.arg for x in a.args + a.kwonlyargs + a.posonlyargs} | ({a.vararg.arg} if a.vararg else set()) | ({a.kwarg.arg} if a.kwarg else set())
+    skip = set(skip) | params
+    # names whose object is mutated in the function stand for a container, not for a value: never replaced by their allocation
+    for n in walk_no_nested(fnode):
+        tg = []
+        if isinstance(n, ast.Assign):
+            tg = n.targets
+        elif isinstance(n, ast.AugAssign):
+            tg = [n.target]
+        for t in tg:
+            for x in ([t] if not isinstance(t, (ast.Tuple, ast.List)) else t.elts):
+                base = x
+                while isinstance(base, (ast.Subscript, ast.Attribute)):
+                    base = base.value
+                if base is not x and isinstance(base, ast.Name):
+                    skip.add(base.id)
+        if isinstance(n, ast.Call) and isinstance(n.func, ast.Attribute) and isinstance(n.func.value, ast.Name) and \
+                n.func.attr in ("append", "add", "extend", "update", "remove", "pop", "insert", "sort", "clear", "discard", "fill", "setdefault"):
+            skip.add(n.func.value.id)
+
+    def bound_inside(x: ast.AST) -> Set[str]:
+        out = set()
+        for n in ast.walk(x):
+            if isinstance(n, ast.comprehension):
+                out |= {y.id for y in ast.walk(n.target) if isinstance(y, ast.Name)}
+            elif isinstance(n, ast.Lambda):
+                out |= {y.arg for y in n.args.args}
+        return out
+
+    def rec(x: ast.AST, d: int) -> ast.AST:
+        inner = bound_inside(x)
+
+        class T(ast.NodeTransformer):
+            def visit_Name(self, n):
+                if isinstance(n.ctx, ast.Load) and n.id not in skip and n.id not in inner and d > 0:
+                    if len(stores_to(fnode, n.id)) == 1:
+                        vs = assigned_value(fnode, n.id)
+                        if len(vs) == 1:
+                            return rec(_copy.deepcopy(vs[0]), d - 1)
+                return n
+        return T().visit(x)
+    return rec(_copy.deepcopy(e), depth)
+
+
+def bound_args(call: ast.Call, f: FuncInfo, skip_receiver: bool = True) -> Optional[Dict[str, ast.AST]]:
+    """parameter name -> argument expression of `call` to `f` (positional and keyword arguments alike); None with *args / **kwargs"""
+    if any(isinstance(a, ast.Starred) for a in call.args) or any(k.arg is None for k in call.keywords):
+        return None
+    ps = list(f.params)
+    if skip_receiver and f.cls is not None and f.kind in ("method", "property", "setter", "classmethod") and ps:
+        ps = ps[1:]
+    out: Dict[str, ast.AST] = {}
+    if len(call.args) > len(ps):
+        return None
+    for n, a in zip(ps, call.args):
+        out[n] = a
+    for k in call.keywords:
+        if k.arg in out or k.arg not in ps:
+            return None
+        out[k.arg] = k.value
+    return out
+
+
+def conditions_at(fnode: ast.AST, node: ast.AST) -> List[Tuple[ast.AST, bool]]:
+    """(test, truth) pairs known to hold whenever `node` is reached, from the shape of the code alone: tests of enclosing `if`s (body: True,
+    else: False) and of earlier sibling `if`s whose taken branch always leaves the block (return / raise / continue / break).  Conditions on
+    names that are rebound in between are the caller's business."""
+    out: List[Tuple[ast.AST, bool]] = []
+
+    def leaves(blk) -> bool:
+        if not blk:
+            return False
+        last = blk[-1]
+        if isinstance(last, (ast.Return, ast.Raise, ast.Continue, ast.Break)):
+            return True
+        if isinstance(last, ast.If) and last.orelse:
+            return leaves(last.body) and leaves(last.orelse)
+        return False
+
+    def contains(x, target) -> bool:
+        return any(y is target for y in ast.walk(x))
+
+    def rec(blk: List[ast.stmt]) -> bool:
+        for k, st in enumerate(blk):
+            if not contains(st, node):
+                continue
+            for prev in blk[:k]:
+                if isinstance(prev, ast.If):
+                    if leaves(prev.body) and not leaves(prev.orelse):
+                        out.append((prev.test, False))
+                    elif prev.orelse and leaves(prev.orelse) and not leaves(prev.body):
+                        out.append((prev.test, True))
+            if isinstance(st, ast.If):
+                if any(contains(b, node) for b in st.body):
+                    out.append((st.test, True))
+                    rec(st.body)
+                elif any(contains(b, node) for b in st.orelse):
+                    out.append((st.test, False))
+                    rec(st.orelse)
+                return True
+            for fld in ("body", "orelse", "finalbody"):
+                sub = getattr(st, fld, None)
+                if isinstance(sub, list) and sub and isinstance(sub[0], ast.stmt) and any(contains(b, node) for b in sub):
+                    rec(sub)
+                    return True
+            for h in getattr(st, "handlers", []) or []:
+                if any(contains(b, node) for b in h.body):
+                    rec(h.body)
+                    return True
+            return True
+        return False
+    rec(list(fnode.body))
+    return out
+
+
 def stores_to(fnode: ast.AST, name: str) -> List[ast.AST]:
     """statements that (re)bind local `name` in any way (assign, augassign, for target, with, comprehension excluded)"""
     out = []
